@@ -376,6 +376,21 @@ func CreateFrom(st variable.Storer, seed string, readers []io.Reader) (r *Real, 
 	return &Real{DR: dr}, nil, ""
 }
 
+// PanicErr is what RestoreAt reports when the library panicked instead of returning.
+type PanicErr struct{ Text string }
+
+func (e *PanicErr) Error() string { return "PANIC in RestoreAt: " + e.Text }
+
+// RestoreAt calls DialogueRunner.RestoreAt under a panic guard.
+func (r *Real) RestoreAt(s *ysgo.Snapshot) (err error) {
+	defer func() {
+		if p := recover(); p != nil {
+			err = &PanicErr{Text: fmt.Sprintf("%v\n%s", p, debug.Stack())}
+		}
+	}()
+	return r.DR.RestoreAt(s)
+}
+
 // Install registers model functions / commands on the runner.
 func (r *Real) Install(funcs map[string]model.Fn, cmds map[string]func([]model.Val) error) {
 	for k, f := range funcs {
